@@ -83,6 +83,20 @@ def _val(v):
     return str(v)
 
 
+def _has_quantifier(e):
+    seen = set()
+    stack = [e]
+    while stack:
+        x = stack.pop()
+        if x.get_id() in seen:
+            continue
+        seen.add(x.get_id())
+        if z3.is_quantifier(x):
+            return True
+        stack.extend(x.children())
+    return False
+
+
 def solve_vc(vc, budget_s=30.0, use_cvc5=True, both=False):
     """Decide pc ==> goal.  Sets vc.status in {'discharged','failed','unknown'}."""
     if vc.status is not None:
@@ -102,10 +116,19 @@ def solve_vc(vc, budget_s=30.0, use_cvc5=True, both=False):
             vc.status = "failed"
             vc.note = "cover unreachable (vacuous precondition?)"
         else:
-            if use_cvc5:
-                rr, secs, out = run_cvc5(vc.pc, budget_s)
-                vc.solver = "cvc5"
-                vc.status = {"sat": "discharged", "unsat": "failed"}.get(rr, "unknown")
+            # satisfiability with quantified axioms is usually 'unknown': retry on the quantifier-free part
+            qf = [a for a in vc.pc if not _has_quantifier(a)]
+            s2 = z3.Solver()
+            s2.set("timeout", int(min(budget_s, 10) * 1000))
+            for a in qf:
+                s2.add(a)
+            r2 = s2.check()
+            if r2 == z3.sat:
+                vc.status = "discharged"
+                vc.note = "cover: sat on the quantifier-free part of the path condition (full condition: unknown)"
+            elif r2 == z3.unsat:
+                vc.status = "failed"
+                vc.note = "cover unreachable (vacuous precondition?)"
             else:
                 vc.status = "unknown"
         return vc
@@ -142,3 +165,134 @@ def solve_vc(vc, budget_s=30.0, use_cvc5=True, both=False):
         return vc
     vc.status = {"unsat": "discharged", "sat": "failed"}.get(final, "unknown")
     return vc
+
+
+# ------------------------------------------------------------------------------------ portfolio over many VCs
+Z3CLI = "/usr/local/bin/z3-new"
+
+
+def _cli_jobs(vc, budget_s, tmpdir, idx):
+    """write the VC once, return the two command lines (z3, cvc5)"""
+    assertions = vc.pc + ([z3.Not(vc.goal)] if vc.kind != "cover" else [])
+    path = os.path.join(tmpdir, f"vc{idx}.smt2")
+    open(path, "w").write(_smt2(assertions))
+    return {
+        "z3": [Z3CLI, f"-T:{int(budget_s)}", path],
+        "cvc5": [CVC5, "--strings-exp", f"--tlimit={int(budget_s * 1000)}", "--lang=smt2", path],
+    }
+
+
+def solve_many(vcs, budget_s=30.0, both=False, quick_ms=1500, par=4):
+    """phase 1: in-process z3 with a short timeout; phase 2: z3 and cvc5 CLIs in parallel on what is left."""
+    import shutil
+
+    todo = []
+    for vc in vcs:
+        if vc.status is not None:
+            continue
+        t0 = time.time()
+        s = z3.Solver()
+        s.set("timeout", quick_ms)
+        for a in vc.pc:
+            s.add(a)
+        if vc.kind != "cover":
+            s.add(z3.Not(vc.goal))
+        r = s.check()
+        vc.secs = time.time() - t0
+        vc.solver = "z3"
+        if vc.kind == "cover":
+            if r == z3.sat:
+                vc.status = "discharged"
+            elif r == z3.unsat:
+                vc.status, vc.note = "failed", "cover unreachable on this path"
+            else:
+                todo.append(vc)
+            continue
+        if r == z3.unsat and not both:
+            vc.status = "discharged"
+        elif r == z3.sat and not both:
+            vc.status = "failed"
+            try:
+                vc.model = model_to_dict(s.model())
+            except Exception:
+                vc.model = {}
+        else:
+            vc.z3_quick = "unsat" if r == z3.unsat else ("sat" if r == z3.sat else "unknown")
+            if r == z3.sat:
+                try:
+                    vc.model = model_to_dict(s.model())
+                except Exception:
+                    vc.model = {}
+            todo.append(vc)
+    if not todo:
+        return
+    tmpdir = tempfile.mkdtemp(prefix="pyvc_")
+    try:
+        pending = []  # (vc, solver, Popen, t0)
+        queue = []
+        for i, vc in enumerate(todo):
+            b = min(budget_s, 5.0) if vc.kind == "cover" else budget_s
+            jobs = _cli_jobs(vc, b, tmpdir, i)
+            vc._answers = {}
+            if getattr(vc, "z3_quick", "unknown") != "unknown":
+                vc._answers["z3"] = vc.z3_quick
+                jobs.pop("z3")
+            for name, cmd in jobs.items():
+                queue.append((vc, name, cmd, b))
+            vc._want = set(jobs)
+        running = []
+        while queue or running:
+            while queue and len(running) < par:
+                vc, name, cmd, b = queue.pop(0)
+                if _decided(vc, both):
+                    continue
+                p = subprocess.Popen(cmd, stdout=subprocess.PIPE, stderr=subprocess.STDOUT, text=True)
+                running.append((vc, name, p, time.time(), b))
+            still = []
+            for vc, name, p, t0, b in running:
+                if _decided(vc, both) and p.poll() is None:
+                    p.kill()
+                    p.wait()
+                    continue
+                if p.poll() is None:
+                    if time.time() - t0 > b + 10:
+                        p.kill()
+                        p.wait()
+                        vc._answers[name] = "unknown"
+                    else:
+                        still.append((vc, name, p, t0, b))
+                    continue
+                out = p.stdout.read() or ""
+                first = out.strip().split("\n")[0].strip() if out.strip() else "unknown"
+                vc._answers[name] = first if first in ("sat", "unsat") else "unknown"
+                vc.secs += time.time() - t0
+            running = still
+            if running:
+                time.sleep(0.02)
+        for vc in todo:
+            ans = vc._answers
+            defin = {k: v for k, v in ans.items() if v in ("sat", "unsat")}
+            vc.note = (vc.note + " " if vc.note else "") + " ".join(f"{k}={v}" for k, v in sorted(ans.items()))
+            if both and len(set(defin.values())) > 1:
+                vc.status = "disagree"
+                continue
+            if not defin:
+                vc.status = "unknown"
+                vc.solver = "z3+cvc5"
+                continue
+            v = next(iter(defin.values()))
+            vc.solver = "+".join(sorted(defin))
+            if vc.kind == "cover":
+                vc.status = "discharged" if v == "sat" else "failed"
+            else:
+                vc.status = "discharged" if v == "unsat" else "failed"
+    finally:
+        shutil.rmtree(tmpdir, ignore_errors=True)
+
+
+def _decided(vc, both):
+    ans = getattr(vc, "_answers", {})
+    defin = [v for v in ans.values() if v in ("sat", "unsat")]
+    if not both:
+        return bool(defin)
+    return len(ans) >= 2 and all(k in ans for k in ("z3", "cvc5"))
